@@ -48,7 +48,7 @@ manifest = {
     }],
     "checks": checks,
     "not_applicable": na,
-    "notes": "Every check: regenerate constants from source, lake build + axiom audit of the property's theorems, cargo build of the harness against /repo's working tree, correspondence run, verdict, evidence. See DESIGN.md.",
+    "notes": "Every check: regenerate constants and the translated definitions (Ite::new, finite-field / complex / expected-utility / real semiring operations) from the source, lake build + axiom audit of every theorem of the property's modules, cargo build of the harness against /repo's working tree, correspondence run (harness | Lean driver), verdict, evidence; --replay re-runs the recorded cases on the current tree. See DESIGN.md (section 9 for the state as built).",
 }
 json.dump(manifest, open(os.path.join(ROOT, "MANIFEST.json"), "w"), indent=1)
 print("wrote MANIFEST.json with", len(checks), "checks;", len(na), "not claimed")
